@@ -215,6 +215,10 @@ pub fn tamper_statement(
         "seed_none" => {
             seed = None;
         },
+        "seed_topbyte" => {
+            // another seed that differs from the original only in its most significant byte
+            seed = seed.map(|sd| env::seed_variant_topbyte(&sd, idx));
+        },
         "bit_length" => {
             let nn = spec["n"].as_u64().unwrap() as usize;
             let pc = ristretto::create_pedersen_gens_with_extension_degree(ext_degree(x));
